@@ -26,7 +26,6 @@ from . import replay as rp
 PROP = "C15"
 ALL = '{"sync", "ret", "fail", "block", "st", "stfail", "stop0", "stop1"}'
 INVS = ["PropertyHolds", "TypeOK", "GroupJoined", "NoOrphanFuture", "NoHungThread"]
-CLAUSE_OF_STATEMENT = None  # every clause of P_Portal belongs to C15
 
 ASSUME = [
     "quiescent-step binding: the environment of the replay acts only when the portal is quiescent, so "
@@ -52,7 +51,7 @@ def model_plan(tier: str) -> list[dict]:
     small = '{"sync", "fail", "block", "st", "stop1"}'
     tiny = '{"sync", "block", "stop1"}'
     plan = [
-        dict(name="free-n2c2-tiny", c=consts(2, 2, tiny, 1, 1), mode="check", inv=INVS),
+        dict(name="free-n1c2-tiny", c=consts(1, 2, tiny, 1, 1), mode="check", inv=INVS),
         dict(name="free-n3c4-sim", c=consts(3, 4, ALL, 2, 2), mode="simulate", inv=INVS,
              num=500 if tier == "quick" else 20000),
     ]
@@ -60,8 +59,10 @@ def model_plan(tier: str) -> list[dict]:
         plan += [
             dict(name="race-n2c3-sim", c=consts(2, 3, ALL, 1, 2, futrace=True, chkrace=True),
                  mode="simulate", inv=["PropertyHolds", "TypeOK", "GroupJoined"], num=10000),
+            dict(name="free-n2c2-tiny", c=consts(2, 2, tiny, 1, 1), mode="check", inv=INVS),
             dict(name="free-n2c2-all", c=consts(2, 2, ALL, 1, 1), mode="check", inv=INVS),
-            dict(name="free-n2c3-tiny", c=consts(2, 3, tiny, 1, 1), mode="check", inv=INVS),
+            dict(name="qstep-c3-all", c=consts(1, 3, ALL, 1, 2, qstep=True), mode="check",
+                 inv=["PropertyHoldsStrict", "NoCrash", "CancelAlwaysLands"] + INVS[1:]),
             dict(name="race-n2c2-small", c=consts(2, 2, small, 1, 1, futrace=True, chkrace=True),
                  mode="check", inv=["PropertyHolds", "TypeOK", "GroupJoined"]),
         ]
@@ -73,11 +74,8 @@ def scenario_plan(tier: str) -> list[dict]:
     if tier == "quick":
         return [dict(name="q-c4-sim", c=consts(1, 4, ALL, 1, 2, qstep=True), mode="simulate", inv=strict,
                      num=400, cap=250)]
-    return [
-        dict(name="q-c3-emit", c=consts(1, 3, ALL, 1, 2, qstep=True), mode="emit", inv=strict, cap=2500),
-        dict(name="q-c4-sim", c=consts(1, 4, ALL, 2, 3, qstep=True), mode="simulate", inv=strict,
-             num=6000, cap=3500),
-    ]
+    return [dict(name="q-c4-sim", c=consts(1, 4, ALL, 2, 3, qstep=True), mode="simulate", inv=strict,
+                 num=12000, cap=3000)]
 
 
 WITNESSES = [
